@@ -164,6 +164,40 @@ def equiv(t1, t2, rng):
     return None
 
 
+class _TagBase:
+    pass
+
+
+def _mk_tag():
+    from claripy.annotation import Annotation
+
+    class Tag(Annotation):
+        eliminatable = False
+        relocatable = False
+
+        def __init__(self, n):
+            self.n = n
+
+        def __hash__(self):
+            return hash(("c08tag", self.n))
+
+        def __eq__(self, o):
+            return isinstance(o, Tag) and o.n == self.n
+
+        def __repr__(self):
+            return "Tag(%d)" % self.n
+    return Tag
+
+
+_TAG = []
+
+
+def _Tag(n):
+    if not _TAG:
+        _TAG.append(_mk_tag())
+    return _TAG[0](n)
+
+
 def rename_equal(t1, t2, m=None):
     """t2 == t1 up to an injective renaming of variables (m: name->name)"""
     m = {} if m is None else m
@@ -322,6 +356,27 @@ def run(ctx):
                 viol("C08/canonicalize/not-a-renaming", "canonicalize(%s) = %s" % (E.sexpr(at), E.sexpr(ct)), {"tree": at})
             if len(can_lines) < ctx.pick(1500, 15000) and not any(x.annotations for x in a.leaf_asts()):
                 can_lines.append("canon " + E.sexpr(at)); can_want.append(E.sexpr(ct))
+            # an annotated occurrence of a variable next to its other occurrences: still ONE variable (found by a seeded-change
+            # agent on the unchanged tree: x and x.annotate(A) got two canonical names)
+            bvl = [l for l in a.leaf_asts() if l.op == "BVS"]
+            if bvl and rng.random() < 0.25 and isinstance(a, claripy.ast.Base):
+                l = rng.choice(bvl)
+                tw = l.annotate(_Tag(rng.randrange(3))) if not l.annotations else l.clear_annotations()
+                a3 = claripy.Concat(a, tw) if isinstance(a, claripy.ast.BV) and rng.random() < 0.5 else (
+                    claripy.Concat(tw, a) if isinstance(a, claripy.ast.BV) else claripy.And(a, tw == claripy.BVS("fresh_tw", l.length, explicit_name=True)))
+                a3t = E.from_ast(a3)
+                c3 = a3.canonicalize()[2]
+                ctx.count()
+                if not rename_equal(a3t, E.from_ast(c3)):
+                    viol("C08/canonicalize/not-a-renaming/annotated-and-bare-occurrence", "canonicalize(%s) = %s (one occurrence of %s carries an annotation)" % (
+                        E.sexpr(a3t), E.sexpr(E.from_ast(c3)), l.args[0]), {"tree": at, "twin": l.args[0]})
+                # and through a shared var_map: the second expression sees the variable annotated, the first bare
+                vm1, ctr1, _ = (a if not l.annotations else a3).canonicalize()
+                both = claripy.Concat(l.clear_annotations(), l.annotate(_Tag(1)))
+                cb_ = both.canonicalize(var_map=dict(vm1), counter=ctr1)[2]
+                if cb_.args[0].args[0] != cb_.args[1].args[0]:
+                    viol("C08/canonicalize/not-a-renaming/annotated-and-bare-occurrence", "with the var_map of a first call, %s and its annotated occurrence become %s and %s" % (
+                        l.args[0], cb_.args[0].args[0], cb_.args[1].args[0]), {"tree": at, "twin": l.args[0]})
             # multi-step: canonical forms are re-canonicalized together with fresh variables
             if rng.random() < 0.3 and isinstance(c, claripy.ast.BV):
                 nm = rng.choice(["fresh", "canonical_1", "w"])
